@@ -296,7 +296,9 @@ class DoLinks(Processor):
         links = molecule.force_field.links
         _nodes_to_remove = []
         for link in links:
-            matches = match_link(molecule, link)
+            # Find all the places where the link fits before applying it: the
+            # attribute replacements below must not affect where it applies.
+            matches = list(match_link(molecule, link))
             for match in matches:
                 for node, node_attrs in link.nodes.items():
                     if 'replace' in node_attrs:
